@@ -43,6 +43,13 @@ Theorem gather_complete_or_reported : forall (lg ped : bool) (ids : list Z) (arr
     length rej = length (snd (gather lg ped ids arr)).
 Proof. exact C09_proofs.gather_complete_lemma. Qed.
 
+(* the same statement through the boolean checker the harness applies to the implementation's output
+   (multiset inclusion of the result in the emitted metrics, one error per missing metric) *)
+Theorem gather_satisfies_checker : forall (lg ped : bool) (ids : list Z) (arr : list emitted),
+  names_ok arr ->
+  complete_or_reported arr (fst (gather lg ped ids arr)) (length (snd (gather lg ped ids arr))) = true.
+Proof. exact C09_proofs.gather_checker_lemma. Qed.
+
 (* nil error: every emitted metric is present exactly once *)
 Theorem gather_nil_error_all_present : forall (lg ped : bool) (ids : list Z) (arr : list emitted),
   names_ok arr -> snd (gather lg ped ids arr) = [] ->
@@ -92,18 +99,15 @@ Example gather_example :
   gather false false [] (map ex_e [ex_a; ex_b; ex_a]) = ([mkF [109] [104] ty_gauge [ex_a; ex_b]], [e_dup_metric]).
 Proof. exact C09_proofs.gather_example_lemma. Qed.
 
-(* NOT PROVED (exercised by the harness stream "builtin" and the no-defect cases of stream "adv"):
-   gather_wellbehaved_all_present :
-     forall lg ped ids arr, names_ok arr ->
-       (forall e, In e arr -> ds_err (e_desc e) = false /\ e_write_err e = false /\
-                  check_labels lg (d_summary (e_dto e)) (d_hist (e_dto e)) [] (d_labels (e_dto e)) = None /\
-                  first_type (e_dto e) <> None /\
-                  (ped && e_checked e = true -> z_in (ds_id (e_desc e)) ids = true /\
-                     check_desc_consistency (ds_help (e_desc e)) (snd (emitted_as e)) (e_desc e) = None)) ->
-       (forall e e', In e arr -> In e' arr -> e_name e = e_name e' ->
-                  e_help e = e_help e' /\ first_type (e_dto e) = first_type (e_dto e')) ->
-       NoDup (map key_of (map emitted_as arr)) ->
-       (forall e e' t, In e arr -> In e' arr -> first_type (e_dto e) = Some t -> collides (e_name e) t (e_name e') = false) ->
-       snd (gather lg ped ids arr) = [].
-   What is proved instead: gather_nil_error_all_present (nil error => everything present) and
-   gather_complete_or_reported.  Missing: the converse direction of each check (no defect => the check passes). *)
+(* well-behaved metrics (valid Desc, successful Write, well-formed labels, one help and one leading payload type per
+   name, pairwise distinct fingerprints, no suffix collision between the names, on a pedantic registry consistent with a
+   registered descriptor -- all true of the built-in metric types registered under non-conflicting names) are all
+   present, each exactly once, with a nil error, in every arrival order *)
+Theorem gather_wellbehaved_all_present : forall (lg ped : bool) (ids : list Z) (arr : list emitted),
+  wellbehaved lg ped ids arr ->
+  snd (gather lg ped ids arr) = [] /\
+  Permutation (all_metrics (fst (gather lg ped ids arr))) (map emitted_as arr).
+Proof. exact C09_proofs.gather_wellbehaved_lemma. Qed.
+
+Example wellbehaved_example : wellbehaved false false [] (map ex_e [ex_a; ex_b]).
+Proof. exact C09_proofs.wellbehaved_example_lemma. Qed.
